@@ -45,6 +45,7 @@ CONSTANTS
   MaxReqSnaps = 2
   ReqSnapNodes = {2}
   MaxUnreach = 0
+  PartialPersist = FALSE
 CONSTRAINT Bound
 INVARIANT Judge
 INVARIANT Replay
